@@ -24,7 +24,7 @@ TInit == /\ tid \in 1..N /\ l = 1 /\ nev = 0 /\ now = 0
                    pingInt |-> 0, pingTO |-> 0, restart |-> TRUE]
          /\ c = New(cfg, 0)
 
-Closes(x) == [i \in 1..Len(x.closes) |-> [clean |-> x.closes[i].clean, code |-> x.closes[i].code]]
+Closes(x) == [i \in 1..Len(x.closes) |-> [clean |-> x.closes[i].clean, code |-> x.closes[i].code, reason |-> x.closes[i].reason]]
 
 Matches(x, o) ==
   /\ x.st = o.st /\ x.cbm = o.cbm /\ x.fbm = o.fbm /\ x.dbm = o.dbm /\ x.clean = o.clean
@@ -67,12 +67,12 @@ TLSend  == IsEvent("lsend") /\ LET r == LocalSend(cfg, c, E.api) IN TStep(r.c) /
 \* two synchronous (queued) sends directly followed by sendClose() in one reactor turn, then the send queue is pumped
 TLBurst == /\ IsEvent("lburst")
            /\ TStep(LocalClose(cfg, LocalSend(cfg, LocalSend(cfg, c, "msg").c, "msg").c, now))
-TPClose == /\ IsEvent("pclose") /\ TStep(PeerCloseOk(cfg, c, now, E.rc))
+TPClose == /\ IsEvent("pclose") /\ TStep(PeerCloseOk(cfg, c, now, E.rc, E.rr))
            /\ c'.nclose > c.nclose => CfCode = (IF cfg.echo THEN E.rc ELSE 1000)   \* reply: normal closure, or the peer's code when echoing
 TPData  == IsEvent("pdata") /\ TStep(PeerData(cfg, c, now))
 \* the peer's close frame and more frames in one read: the same as one after the other (a synchronously reported loss happens
 \* inside the close step; ConnLost commutes with the no-op that data on a closed connection is)
-TPCloseData == /\ IsEvent("pclosedata") /\ TStep(PeerData(cfg, PeerCloseOk(cfg, c, now, E.rc), now))
+TPCloseData == /\ IsEvent("pclosedata") /\ TStep(PeerData(cfg, PeerCloseOk(cfg, c, now, E.rc, E.rr), now))
                /\ c'.nclose > c.nclose => CfCode = (IF cfg.echo THEN E.rc ELSE 1000)
 TPPing  == IsEvent("pping") /\ TStep(PeerPing(cfg, c))
 TPPong  == IsEvent("ppong") /\ TStep(PeerPong(cfg, c, now, E.match))
